@@ -27,13 +27,20 @@ inductive MaskKind where
   | nd        -- contiguous boolean ndarray
   | strided   -- boolean ndarray view with a stride (`mask[::2]`)
   | list      -- python list of bools
+  | readonly  -- contiguous boolean ndarray with `flags.writeable = False`
+  deriving DecidableEq, Repr
+
+inductive ArrKind where
+  | list      -- python list of ints
+  | nd        -- integer ndarray (any width, signed or unsigned, strided or read-only: all behave alike)
+  | swapped   -- integer ndarray of non-native byte order
   deriving DecidableEq, Repr
 
 inductive Index where
   | int (i : Int)
   | slice (start stop step : Option Int)
   | mask (bs : List Bool) (kind : MaskKind)
-  | arr (is : List Int) (nd : Bool)      -- integer ndarray (`nd = true`) or python list
+  | arr (is : List Int) (kind : ArrKind)
   | ellipsis
   deriving DecidableEq, Repr
 
@@ -175,6 +182,8 @@ def bondsIndexErr (ix : Index) (sel : List Nat) : Option Err :=
   match ix with
   | .mask bs .strided => if bs.length ≥ 2 then some .valueError else none     -- np.frombuffer: not C-contiguous
   | .mask _ .nd => none
+  | .mask _ .readonly => some .valueError      -- typed memoryview: "buffer source array is read-only"
+  | .arr _ .swapped => some .valueError        -- typed memoryview: "Big-endian buffer not supported"
   | _ => if hasDup sel then some .notImplemented else none
 
 /-- `BondList.__getitem__` reads `mask_v[atom]` for every bond without bounds check: a size-0 ndarray mask
@@ -257,12 +266,13 @@ def setAt (xs : List Tok) (sel : List Nat) (v : Tok) : List Tok :=
 
 /-- `isinstance(index, (numbers.Integral, np.ndarray))` -/
 def setIndexOk : Index → Bool
-  | .int _ => true | .mask _ .nd => true | .mask _ .strided => true | .arr _ true => true | _ => false
+  | .int _ => true | .mask _ .nd => true | .mask _ .strided => true | .mask _ .readonly => true
+  | .arr _ .nd => true | .arr _ .swapped => true | _ => false
 
 /-- `AtomArray.__setitem__(index, atom)` -/
 def setElement (a : Arr) (ix : Index) (v : AtomV) : Except Err Arr :=
   if !setIndexOk ix then .error .typeError
-  else if !(a.annot.all (fun p => hasKey p.1 v.annot)) then .error unmodelled   -- KeyError half-way through
+  else if !(a.annot.all (fun p => hasKey p.1 v.annot)) then .error .keyError      -- checked before anything is written
   else match resolve a.n ix with
   | .error e => .error e
   | .ok sel =>
